@@ -178,6 +178,7 @@ def one(ctx, i, tmpdir):
         "in_func_precedes": any(f[0]["func_precedes"] for f in feats), "out_func_precedes": any(f[1]["func_precedes"] for f in feats),
         "in_max_depth": max(f[0]["depth"] for f in feats), "out_max_depth": max(f[1]["depth"] for f in feats),
         "out_has_kwonly": any(f[1]["target_kind"] in ("kwarg", "method_kwarg") for f in feats),
+        "address_aliased_earlier": any(f.get("alias_before_target") or f.get("same_name_assigned_in_block_before") for pair in feats for f in pair),
         "out_name_assigned_again_in_block": any(l.get("redeclared_in_block") and l["path"] in [p[1] for p in pairs] for l in mout["locations"]),
     }
     replay = {"case": i, "seed": ctx.seed, "tier": ctx.tier, "in_src": in_src, "out_src": out_src, "pairs": pairs, "wrap": wrap, "eval": evalmode}
